@@ -13,7 +13,7 @@ from ..model import Undecided
 from ..cfg import dotted, call_name, is_call, simple_name, unparse, const_value, contains, enclosing, implied
 from ..flow import Defs, depends, scoped_defs
 from ..decide import table, ret_kind
-from ..util import component_of, keyword, returns_of, calls_in, inside, order_key
+from ..util import component_of, component_expr, keyword, returns_of, calls_in, inside, order_key
 
 NOT_DECIDED = 'that the error responses are well-formed (C18); numeric behaviour of the grid arithmetic for huge values'
 
@@ -191,9 +191,10 @@ def _area_of(expr, defs, base_pred):
         return False, unparse(e)
 
     def elem(x):
-        # name bound by unpacking (w, h = size) or subscript
-        if isinstance(x, ast.Subscript) and base_pred(x.value):
-            return const_value(x.slice)
+        # name bound by unpacking (w, h = size) or subscript, the sequence possibly bound to a local first
+        c = component_expr(x, defs)
+        if c is not None and (base_pred(c[0]) or (isinstance(x, ast.Subscript) and base_pred(x.value))):
+            return c[1]
         if isinstance(x, ast.Name):
             for v, sel in defs.of(x.id):
                 if isinstance(sel, int) and base_pred(v):
@@ -201,6 +202,19 @@ def _area_of(expr, defs, base_pred):
         return None
     a, b = elem(e.left), elem(e.right)
     return {a, b} == {0, 1}, unparse(e)
+
+
+def _test_before(g, atom, limit, targets):
+    """every path to a target passes the statement that tests `atom`, except paths on which the limit is known to be unset"""
+    tests = {s for s, d, test, pol in g.branch_edges() for at, p in implied(test, pol) if at.text == atom.text} | \
+            {s for s, d, test, pol in g.branch_edges() for at, p in implied(test, not pol) if at.text == atom.text}
+    for s, d, test, pol in g.branch_edges():
+        from ..cfg import all_atoms
+        if any(at.text == atom.text for at, _ in all_atoms(test)):
+            tests.add(s)
+    unset = g.guard_edges(lambda at: at.op is None and unparse(at.expr) == limit, False)
+    reach = g.reachable(0, skip_edges=unset, avoid=tests)
+    return bool(tests) and all(n not in reach or n in tests for n in targets)
 
 
 @rule('C16.c', floor=8)
@@ -235,8 +249,7 @@ def c16c(ctx):
                   fail='the quantity compared with max_output_pixels is %s, not size[0] * size[1]: tall or wide requests escape the limit' % txt)
         others = g.find(lambda x: is_call(x, 'self.validate_layers', 'validate_format', 'validate_srs'))
         # the check comes before layer validation
-        iff = enclosing(g.stmt[r], ast.If)
-        ok = iff is not None and all(g.dominates(g.node_of[id(iff)], n) for n, x in others)
+        ok = _test_before(g, at, 'self.max_output_pixels', [n for n, x in others])
         ctx.check(ok, 'WMSServer.check_map_request:before-validation', 'the pixel limit is checked before layers/format/SRS are validated', cm)
         ok = isinstance(g.stmt[r].exc, ast.Call) and simple_name(g.stmt[r].exc) == 'RequestError'
         ctx.check(ok, 'WMSServer.check_map_request:raises-request-error', 'exceeding the limit raises RequestError', cm)
@@ -264,8 +277,7 @@ def c16c(ctx):
         okq, txt = _area_of(qty, defs, is_grid)
         ctx.check(okq, 'CacheMapLayer._image:tile-count-is-area', 'the compared quantity is tile_grid[0] * tile_grid[1] of get_affected_tiles()', im, g.stmt[r],
                   fail='the quantity compared with max_tile_limit is %s, not tile_grid[0] * tile_grid[1]: the limit does not bound the number of tiles' % txt)
-        iff = enclosing(g.stmt[r], ast.If)
-        ok = bool(loads) and iff is not None and all(g.dominates(g.node_of[id(iff)], n) for n, x in loads)
+        ok = bool(loads) and _test_before(g, at, 'self.max_tile_limit', [n for n, x in loads])
         ctx.check(ok, 'CacheMapLayer._image:limit-before-load', 'the tile limit is checked before tiles are loaded/created', im,
                   fail='tiles are loaded before the tile limit is checked')
         ok = isinstance(g.stmt[r].exc, ast.Call) and simple_name(g.stmt[r].exc) == 'MapBBOXError'
